@@ -9,6 +9,7 @@ with tempfile.TemporaryDirectory() as d:
     x = os.path.join(d, 'j.xml')
     env = dict(os.environ)
     env.pop('CELL_TYPE_MAPPER_VERIF', None)
+    env['PYTHONPATH'] = os.path.join(repo, 'src')
     subprocess.run(['/venv/bin/python', '-m', 'pytest', '-q', '-p', 'no:cacheprovider',
                     '--timeout=900', '--continue-on-collection-errors', '-x' if False else '-q',
                     '--junitxml=' + x] + sys.argv[2:], cwd=repo, env=env,
